@@ -237,6 +237,9 @@ pub fn count_definite_preemptions(p: &Program, hist: &[HEv]) -> Option<usize> {
     let mut count = 0usize;
     let mut ch = ScriptChoose::default();
     for ev in hist {
+        if ev.kind == HK::Note {
+            continue;
+        }
         let t = ev.tid as usize;
         for u in 0..nt {
             if u != t && open[u].is_some() {
@@ -268,7 +271,7 @@ pub fn count_definite_preemptions(p: &Program, hist: &[HEv]) -> Option<usize> {
             HK::Spin => {
                 m.spin_read(t, ev.res?, &mut ch).ok()?;
             }
-            HK::Unwind => {}
+            HK::Unwind | HK::Note => {}
         }
     }
     Some(count)
